@@ -5,6 +5,7 @@ import Mkdb.Proofs.RefineInsert
 import Mkdb.Proofs.FlushReload3
 import Mkdb.Proofs.LeafChain
 import Mkdb.Proofs.BSearch
+import Mkdb.Proofs.BSearchInv
 /-!
 # C11 — the on-disk B+ tree keeps its shape invariants
 
@@ -501,3 +502,103 @@ example : search [2, 3, 5, 7, 11, 13, 17] 7 = .ret 3 true ∧ search [2, 3, 5, 7
   refine ⟨?_, ?_, ?_, ?_, ?_⟩ <;> simp [search, loop]
 
 end Mkdb.BSearch
+
+
+/-!
+## The search inside a page, on the pages the engine builds
+
+`C11_binary_search_is_the_insertion_point` needs the slot array strictly ascending.  The shape invariant
+gives that on every page: for leaves it is `KeysAsc`; for internal nodes the separators are (by `SepsOK`)
+a sublist of the lowest keys of the level below, which bottom-up are a sublist of the leaf keys
+(`LeavesNonempty` makes the lowest key of a leaf a real key).  Proofs: `Mkdb/Proofs/BSearchInv.lean`.
+-/
+namespace Mkdb.Tree
+open Mkdb.Page Mkdb.Generated
+
+/-- **C11.every_page_is_sorted**: in a well-formed tree the keys of every leaf and the separators of
+every internal node of every level are strictly ascending - the hypothesis of the binary-search
+theorems, from the shape invariant. -/
+theorem C11_every_page_is_sorted (t : Levels) (nf : Nat) (hinv : Inv t nf) :
+    (∀ l ∈ t.leaves, (l.1.cells.map (·.key)).Pairwise (· < ·)) ∧
+    (∀ lvl ∈ t.inner, ∀ n ∈ lvl, (n.1.cells.map (·.key)).Pairwise (· < ·)) :=
+  ⟨inv_leaf_sorted t nf hinv, inv_internal_sorted t nf hinv⟩
+
+/-- **C11.every_page_is_searched_by_the_loop**: after any history of insertions, value changes and
+deletions from a freshly created table (the trees of `C11_every_history`: any number of leaf splits,
+internal splits and root growths), on every page of the tree - every leaf, every internal node of every
+level - and for EVERY key `k`, stored or not, the loop of `findCellOffsetByKey` as written
+(`BSearch.search` on the page's keys in slot order) returns exactly the position and hit flag the heap
+model takes for granted (`Store.findPos (keysOfLeaf l) k` / `Store.findPos (keysOfInternal n) k`);
+it reports a hit exactly when `k` is on the page; and it never indexes outside the slot array (no
+panic).  So the sortedness hypothesis of `C11_binary_search_is_the_insertion_point` holds on every page
+the engine can build. -/
+theorem C11_every_page_is_searched_by_the_loop (off nf : Nat) (h : off < nf) (ops : List TOp) (k : Nat) :
+    (∀ l ∈ (runOps (emptyTree off, nf) ops).1.leaves,
+      BSearch.search (Store.keysOfLeaf l.1) k =
+        .ret (Store.findPos (Store.keysOfLeaf l.1) k).1 (Store.findPos (Store.keysOfLeaf l.1) k).2 ∧
+      ((∃ p, BSearch.search (Store.keysOfLeaf l.1) k = .ret p true) ↔ k ∈ Store.keysOfLeaf l.1) ∧
+      BSearch.search (Store.keysOfLeaf l.1) k ≠ .panic) ∧
+    (∀ lvl ∈ (runOps (emptyTree off, nf) ops).1.inner, ∀ n ∈ lvl,
+      BSearch.search (Store.keysOfInternal n.1) k =
+        .ret (Store.findPos (Store.keysOfInternal n.1) k).1 (Store.findPos (Store.keysOfInternal n.1) k).2 ∧
+      ((∃ p, BSearch.search (Store.keysOfInternal n.1) k = .ret p true) ↔ k ∈ Store.keysOfInternal n.1) ∧
+      BSearch.search (Store.keysOfInternal n.1) k ≠ .panic) :=
+  inv_every_page_searched _ _ (C11_every_history off nf h ops) k
+
+/-- non-vacuity: after 20 inserts the tree has four leaves with keys 1-4, 5-8, 9-12, 13-20 under a root
+with the separators 5, 9, 13; on the root the loop sends key 11 to slot 2 (no hit) and finds the
+separator 9 at slot 1; on the last leaf it finds key 17 at slot 4 and puts the absent key 99 at slot 8 -/
+example :
+    (runOps (emptyTree 4096, 8192) ((List.range' 1 20).map fun k => .ins k 0 [])).1.leaves.map
+      (fun l => Store.keysOfLeaf l.1) = [[1, 2, 3, 4], [5, 6, 7, 8], [9, 10, 11, 12], [13, 14, 15, 16, 17, 18, 19, 20]] ∧
+    (runOps (emptyTree 4096, 8192) ((List.range' 1 20).map fun k => .ins k 0 [])).1.inner.map
+      (fun lvl => lvl.map fun n => Store.keysOfInternal n.1) = [[[5, 9, 13]]] ∧
+    BSearch.search [5, 9, 13] 11 = .ret 2 false ∧ BSearch.search [5, 9, 13] 9 = .ret 1 true ∧
+    BSearch.search [13, 14, 15, 16, 17, 18, 19, 20] 17 = .ret 4 true ∧
+    BSearch.search [13, 14, 15, 16, 17, 18, 19, 20] 99 = .ret 8 false := by
+  refine ⟨by decide, by decide, ?_, ?_, ?_, ?_⟩ <;> simp [BSearch.search, BSearch.loop]
+
+end Mkdb.Tree
+
+namespace Mkdb.Store
+open Mkdb.Tree Mkdb.Page
+
+/-- **C11.every_heap_page_is_searched_by_the_loop**: on the heap model.  If the store's page heap holds
+a well-formed tree `t` (`HeapInv s t`), then every page object of that tree - every `(off, node, dirty)`
+of the flattened heap - is what the store shows at its offset (`view s off`), and on its keys in slot
+order (`nodeKeys`: `keysOfLeaf` of a leaf, `keysOfInternal` of an internal node) the loop of
+`findCellOffsetByKey`, for EVERY key `k`, returns exactly `findPos`, reports a hit exactly when `k` is on
+the page, and does not panic.  (Pages of the store that belong to no tree the hypothesis speaks of are
+not covered: nothing is known about them.) -/
+theorem C11_every_heap_page_is_searched_by_the_loop (s : Store) (t : Levels) (h : HeapInv s t) (k : Nat) :
+    ∀ e ∈ flatten t, view s e.1 = some (e.2.1, e.2.2) ∧
+      BSearch.search (nodeKeys e.2.1) k = .ret (findPos (nodeKeys e.2.1) k).1 (findPos (nodeKeys e.2.1) k).2 ∧
+      ((∃ p, BSearch.search (nodeKeys e.2.1) k = .ret p true) ↔ k ∈ nodeKeys e.2.1) ∧
+      BSearch.search (nodeKeys e.2.1) k ≠ .panic :=
+  fun e he => ⟨h.holds e he, inv_every_flat_page_searched t _ h.inv k e he⟩
+
+/-- ... hence at the end of every history of `C11_every_history_with_flushes_and_reloads` (ascending
+insert keys, value changes, deletions, flushes in any write order, reloads): the heap run succeeds, and
+every page of the tree it leaves in the store is searched by the loop exactly as `findPos` says, for
+every key, without a panic. -/
+theorem C11_every_heap_page_is_searched_by_the_loop_in_a_history (ops : List FROp) (s : Store) (t : Levels)
+    (h : HeapInv s t) (hok : RunOKF (t, s.hdr.nextFree) ops) (k : Nat) :
+    ∃ s' root', heapRunF (rootOff t) ops s = .ok root' s' ∧
+      ∀ e ∈ flatten (runF (t, s.hdr.nextFree) ops).1, view s' e.1 = some (e.2.1, e.2.2) ∧
+        BSearch.search (nodeKeys e.2.1) k = .ret (findPos (nodeKeys e.2.1) k).1 (findPos (nodeKeys e.2.1) k).2 ∧
+        ((∃ p, BSearch.search (nodeKeys e.2.1) k = .ret p true) ↔ k ∈ nodeKeys e.2.1) ∧
+        BSearch.search (nodeKeys e.2.1) k ≠ .panic := by
+  obtain ⟨s', root', e, _, h', _⟩ := heapRunF_refines ops s t h hok
+  exact ⟨s', root', e, C11_every_heap_page_is_searched_by_the_loop s' _ h' k⟩
+
+/-- non-vacuity: the history `opsF0` from the store `s0` of a fresh table meets the hypotheses
+(`s0_heapInv`, `RunOKF` by computation) and leaves four pages in the heap: the leaves at 4096, 8192, 16384
+with keys 1-4, 5-8, 9-14 and the root at 12288 with the separators 5, 9; the loop on the root sends key 7
+to slot 1 and on the last leaf finds key 13 at slot 4 -/
+example : HeapInv s0 (emptyTree 4096) ∧ RunOKF (emptyTree 4096, s0.hdr.nextFree) opsF0 ∧
+    (flatten (runF (emptyTree 4096, s0.hdr.nextFree) opsF0).1).map (fun e => (e.1, nodeKeys e.2.1)) =
+      [(4096, [1, 2, 3, 4]), (8192, [5, 6, 7, 8]), (16384, [9, 10, 11, 12, 13, 14]), (12288, [5, 9])] ∧
+    BSearch.search [5, 9] 7 = .ret 1 false ∧ BSearch.search [9, 10, 11, 12, 13, 14] 13 = .ret 4 true := by
+  refine ⟨s0_heapInv, by decide, by decide, ?_, ?_⟩ <;> simp [BSearch.search, BSearch.loop]
+
+end Mkdb.Store
